@@ -111,6 +111,11 @@ def build(case: t.Dict[str, t.Any]) -> t.Tuple[t.Callable[[], t.Any], t.List[t.D
         else:
             parts.append(absval.to_lib(m).pack(opts) if libenc else rfc4511.encode(m))
     cand = sorted({m["id"] for m in msgs} | set(ids))
+    if len(cand) > 48:
+        # each probe clones the session (cost proportional to the operations in progress): long runs are sampled -
+        # the first, the last and evenly spaced ids in between
+        step = len(cand) // 24
+        cand = sorted(set(cand[:8] + cand[-8:] + cand[::step]))
     return (lambda: factory()[0]), msgs, b"".join(parts), cand
 
 
